@@ -442,6 +442,18 @@ theorem PoolOK_step {P : Params} {A : Assembler} {script : List Item} {s s' : St
       · injection hs with hs; subst hs; simp [PoolOK]
       · cases hs
     · cases hs
+  case pollErr e =>
+    unfold stepPollErr at hs
+    split at hs
+    · split at hs
+      · injection hs with hs; subst hs; simp [PoolOK]
+      · cases hs
+    · cases hs
+  case rxSendForeign bs =>
+    unfold stepRxSendForeign at hs
+    split at hs
+    · split at hs <;> (injection hs with hs; subst hs; exact PoolOK_congr rfl rfl rfl rfl rfl rfl h)
+    · cases hs
   case parse =>
     unfold stepParse at hs
     split at hs
@@ -474,6 +486,16 @@ theorem PoolOK_step {P : Params} {A : Assembler} {script : List Item} {s s' : St
     split at hs
     · split at hs
       · next x rest hpend =>
+        split at hs
+        · next hc => injection hs with hs; subst hs; simp only [PoolOK]; rw [hpend] at hc; simp at hc; omega
+        · cases hs
+      · cases hs
+    · cases hs
+  case reapFault =>
+    unfold stepReapFault at hs
+    split at hs
+    · split at hs
+      · next x rest e hpend hitem =>
         split at hs
         · next hc => injection hs with hs; subst hs; simp only [PoolOK]; rw [hpend] at hc; simp at hc; omega
         · cases hs
@@ -701,6 +723,18 @@ theorem Sizes_step {P : Params} {A : Assembler} {script : List Item} {s s' : Sta
       · injection hs with hs; subst hs; exact ⟨hl, ht, hc, hr, by simp, hsn⟩
       · cases hs
     · cases hs
+  case pollErr e =>
+    unfold stepPollErr at hs
+    split at hs
+    · split at hs
+      · injection hs with hs; subst hs; exact ⟨hl, ht, hc, hr, by simp, hsn⟩
+      · cases hs
+    · cases hs
+  case rxSendForeign bs =>
+    unfold stepRxSendForeign at hs
+    split at hs
+    · split at hs <;> (injection hs with hs; subst hs; exact ⟨hl, ht, hc, hr, hi, hsn⟩)
+    · cases hs
   case parse =>
     unfold stepParse at hs
     split at hs
@@ -753,6 +787,15 @@ theorem Sizes_step {P : Params} {A : Assembler} {script : List Item} {s s' : Sta
     · cases hs
   case reapOne =>
     unfold stepReapOne at hs
+    split at hs
+    · split at hs
+      · split at hs
+        · injection hs with hs; subst hs; exact ⟨hl, ht, hc, hr, by simp, hsn⟩
+        · cases hs
+      · cases hs
+    · cases hs
+  case reapFault =>
+    unfold stepReapFault at hs
     split at hs
     · split at hs
       · split at hs
@@ -946,8 +989,9 @@ macro "step_split" : tactic => `(tactic| (
     | unfold stepCheckCancel at hs | unfold stepObtainReuse at hs | unfold stepObtainBack at hs
     | unfold stepObtainAlloc at hs | unfold stepSubmitOk at hs | unfold stepSubmitFail at hs
     | unfold stepPollOk at hs | unfold stepPollOverflow at hs | unfold stepPollFault at hs
-    | unfold stepPollPending at hs | unfold stepParse at hs | unfold stepTrySend at hs
-    | unfold stepCancelNext at hs | unfold stepReapOne at hs | unfold stepReapLate at hs
+    | unfold stepPollPending at hs | unfold stepPollErr at hs | unfold stepRxSendForeign at hs
+    | unfold stepParse at hs | unfold stepTrySend at hs
+    | unfold stepCancelNext at hs | unfold stepReapOne at hs | unfold stepReapFault at hs | unfold stepReapLate at hs
     | unfold stepIterEnd at hs
     | unfold stepExit at hs | unfold stepRxRecv at hs | unfold stepRxNone at hs
     | unfold stepRxSendBack at hs | unfold stepRxDrop at hs | unfold stepRxClose at hs
@@ -1003,6 +1047,24 @@ theorem Own_step {P : Params} {A : Assembler} {script : List Item} {s s' : State
           simp only [h2, if_true]; omega
         · have e2 : ¬ i < s.nextBuf + 1 := by omega
           simp only [h1, h2, e2, if_true, if_false] at hi ⊢; omega
+    · cases hs
+  case rxSendForeign bs =>
+    unfold stepRxSendForeign at hs
+    split at hs
+    · split at hs <;> (injection hs with hs; subst hs) <;>
+      · intro i; have hi := h i
+        simp only [owned, loopOwned, chanOwned, rxOwned, backOwned, List.count_append, List.count_cons,
+          List.count_nil, List.map_append, List.map_cons, List.map_nil, beq_iff_eq] at hi ⊢
+        by_cases h1 : i < s.nextBuf
+        · have e1 : ¬ s.nextBuf = i := by omega
+          have e2 : i < s.nextBuf + 1 := by omega
+          simp only [h1, e1, e2, if_true, if_false] at hi ⊢; omega
+        · by_cases h2 : s.nextBuf = i
+          · have e2 : i < s.nextBuf + 1 := by omega
+            simp only [h1, e2, if_true, if_false] at hi ⊢
+            simp only [h2, if_true]; omega
+          · have e2 : ¬ i < s.nextBuf + 1 := by omega
+            simp only [h1, h2, e2, if_true, if_false] at hi ⊢; omega
     · cases hs
   case rxSendBack id =>
     unfold stepRxSendBack at hs
